@@ -166,7 +166,7 @@ class Resolver:
                 return E("const", None, "fn", c.get("def"), c)
             if c.get("closure"):
                 return E("closure", c["closure"], [])
-            return E("const", c.get("int"), c.get("ty"), c.get("str"), c)
+            return E("const", c.get("int"), c.get("ty"), c.get("str") if c.get("float") is None else c.get("float"), c)
         return self.place(op_place(o), depth)
 
     def place(self, p, depth=0):
